@@ -186,7 +186,22 @@ func (vc *VC) evalCallWith(st *State, call *ast.CallExpr, preRecv *Term, preArgs
 	}
 	spec := vc.p.specFor(callee)
 	if spec == nil {
-		vc.fail(call, "callee %s has no contract", callee.FullName())
+		if vc.pure > 0 {
+			vc.fail(call, "callee %s has no contract (used under a binder)", callee.FullName())
+		}
+		// unknown callee: the most conservative abstraction (everything mutable may change, results arbitrary).
+		// Obligations of this function that then fail are reported as undecided unless a counterexample replays.
+		vc.abstracted = append(vc.abstracted, callee.FullName())
+		vc.note("callee without contract abstracted by havoc: " + callee.FullName() + " at " + vc.pos(call))
+		vc.havocAll(st)
+		var rets []Term
+		for i := 0; i < isig.Results().Len(); i++ {
+			rt := vc.ts.apply(isig.Results().At(i).Type())
+			r := vc.fresh("ret_"+callee.Name(), rt)
+			st.assume(vc.u.WF(r.S, rt, st.alloc))
+			rets = append(rets, r)
+		}
+		return rets
 	}
 	if vc.pure > 0 {
 		env := &SpecEnv{vc: vc, st: st, old: st, vars: map[string]Term{}, pkg: vc.pkg}
@@ -601,6 +616,11 @@ func (vc *VC) callByContract(st *State, spec *FuncSpec, callee *types.Func, sig 
 // havocAll forgets every mutable heap (callee without a frame).
 func (vc *VC) havocAll(st *State) {
 	st.havocTok = vc.u.Fresh("hv")
+	known := map[string]bool{}
+	for h := range vc.heapSort {
+		known[h] = true
+	}
+	vc.havocKnown[st.havocTok] = known
 	na := vc.freshSort("alloc", "Int")
 	st.assume("(>= " + na.S + " " + st.alloc + ")")
 	st.alloc = na.S
@@ -703,6 +723,32 @@ func (vc *VC) evalWriteTarget(env *SpecEnv, e ast.Expr, text string, add func(h,
 				// contents(e): the map / channel object e refers to
 				x := env.eval(ce.Args[0])
 				vc.addObjectTargets(env, x, e, add)
+				return
+			}
+			if id, ok := ce.Fun.(*ast.Ident); ok && id.Name == "when" && len(ce.Args) == 2 {
+				// when(cond, target): the target only if cond holds (evaluated in the pre-state)
+				c := env.evalBool(ce.Args[0])
+				vc.evalWriteTarget(env, ce.Args[1], text, func(h, ref string) { addCond(h, and(c, eq("r!f", ref))) },
+					func(h, cond string) { addCond(h, and(c, cond)) })
+				return
+			}
+			if id, ok := ce.Fun.(*ast.Ident); ok && id.Name == "anychan" {
+				// anychan(T): the buffer of any channel with element type T (and the drop counters)
+				t, _ := vc.resolveType(ce.Args[0], env.pkg)
+				ci := vc.chanInfo(types.NewChan(types.SendRecv, t))
+				vc.heapGet(env.st, ci.bn, ci.bsort, types.NewSlice(ci.E))
+				addCond(ci.bn, "true")
+				if _, ok := vc.p.con.Ghosts["dropped"]; ok {
+					hn, hs, _, _ := vc.ghostHeap("dropped", env.pkg)
+					vc.heapGet(env.st, hn, hs, nil)
+					addCond(hn, "true")
+				}
+				return
+			}
+			if id, ok := ce.Fun.(*ast.Ident); ok && id.Name == "anylock" {
+				// anylock(x.mu): the lock state of that mutex field in every object of x's type
+				hn, _ := env.lockTarget(ce.Args[0])
+				addCond(hn, "true")
 				return
 			}
 			if id, ok := ce.Fun.(*ast.Ident); ok && id.Name == "token" {
@@ -968,6 +1014,34 @@ func (vc *VC) chanLogSend(st *State, ch Term, v Term) {
 }
 
 func (vc *VC) execSelectModel(st *State, x *ast.SelectStmt) []*State {
+	// discipline (C13): a select that can block must be cancellable
+	hasDefault, hasDone := false, false
+	for _, c := range x.Body.List {
+		cc := c.(*ast.CommClause)
+		if cc.Comm == nil {
+			hasDefault = true
+			continue
+		}
+		var rx ast.Expr
+		switch comm := cc.Comm.(type) {
+		case *ast.ExprStmt:
+			rx = comm.X
+		case *ast.AssignStmt:
+			rx = comm.Rhs[0]
+		}
+		if ue, ok := ast.Unparen(rx).(*ast.UnaryExpr); rx != nil && ok && ue.Op == token.ARROW {
+			if ce, ok := ast.Unparen(ue.X).(*ast.CallExpr); ok {
+				if se, ok := ce.Fun.(*ast.SelectorExpr); ok && se.Sel.Name == "Done" {
+					hasDone = true
+				}
+			}
+		}
+	}
+	if !hasDefault && !hasDone {
+		vc.oblige(st, "cancellable", "a select that may block has a <-ctx.Done() case (or a default)", vc.pos(x), "false", nil)
+	} else {
+		vc.oblige(st, "cancellable", "a select that may block has a <-ctx.Done() case (or a default)", vc.pos(x), "true", nil)
+	}
 	tg := &target{}
 	vc.targets = append(vc.targets, tg)
 	var outs []*State
